@@ -34,15 +34,18 @@ ABSENT = hashlib.md5(b"never-stored").hexdigest()  # noqa: S324
 _ZERO = []
 
 
+_ZERO_NEXT = [0]
+
+
 def zero_objects(n):
-    """n distinct contents whose md5 starts with '00' (brute force, cached)."""
-    i = 0
+    """n distinct contents whose md5 starts with '00' (brute force, cached, deterministic)."""
     while len(_ZERO) < n:
+        i = _ZERO_NEXT[0]
+        _ZERO_NEXT[0] += 1
         data = b"filler-%d" % i
         h = hashlib.md5(data).hexdigest()  # noqa: S324
         if h.startswith("00"):
             _ZERO.append((h, data))
-        i += 1
     return _ZERO[:n]
 
 
@@ -113,6 +116,25 @@ def status_case(case):
                     if sig not in sigs:
                         sigs.add(sig)
                         res["viol"].append((sig, f"exists={[name_of(o) for o in ex]} want={[name_of(o) for o in want_ex]} missing={[name_of(o) for o in ms]} want={[name_of(o) for o in want_ms]}", sub))
+        # ids sharing their two-character prefix, some present, some absent (any iteration order)
+        if case["fillers"] >= 8:
+            fill = zero_objects(case["fillers"] + 4)
+            p00 = [h for h, _d in fill[:4]]
+            a00 = [h for h, _d in fill[case["fillers"]:case["fillers"] + 4]]
+            for pres, absn in ((p00[:1], a00[:1]), (p00[:2], a00[:2]), (p00, a00)):
+                q = pres + absn
+                st = status(odb, {hi(o) for o in q}, cache_odb=cache, jobs=1)
+                res["n"] += 1
+                res["trans"] += 1
+                ex = {h.value for h in st.exists}
+                ms = {h.value for h in st.missing}
+                if ex != set(pres) or ms != set(absn):
+                    sig = "status-partition-wrong/same-prefix-ids"
+                    if sig not in sigs:
+                        sigs.add(sig)
+                        res["viol"].append((sig, f"exists={sorted(ex)} want={sorted(pres)}",
+                                            {"part": "status", "kind": case["kind"], "content": content,
+                                             "fillers": case["fillers"], "query": q, "shallow": True}))
         res["vac"]["strategy_list_oids_exists"] += calls["loe"]
         res["vac"]["strategy_traverse"] += calls["trav"]
         # compare_status against a second store
@@ -173,10 +195,12 @@ def alphabet(tier):
     ops.append(("status", "closed"))
     ops.append(("status", "expanded"))
     ops.append(("status", "dirs"))
+    ops.append(("status", "dir-T1"))
+    ops.append(("status", "dir-T2"))
     return ops
 
 
-def run_history(hist):
+def run_history(hist, init="empty"):
     """Execute a history on a fresh world. Returns (violations, canonical state, steps)."""
     from dvc_data.hashfile.status import status
 
@@ -186,6 +210,12 @@ def run_history(hist):
         xw = XWorld(w, TREES, dest_kind="base", use_index=True)
         try:
             delivered = set()
+            if init == "orphan-dir-indexed":
+                # someone else left T1's directory object in the store without its files, and a status
+                # query has indexed it (with the files it lists, which were never delivered here)
+                fill_store(xw.dest, [TREE_OID["T1"]])
+                delivered.add(TREE_OID["T1"])
+                status(xw.dest, {hi(TREE_OID["T1"])}, index=xw.index, cache_odb=xw.src, jobs=1)
             for i, op in enumerate(hist):
                 steps += 1
                 before = set(objects_only(store_snapshot(xw.dest.path)))
@@ -206,7 +236,8 @@ def run_history(hist):
                 elif op[0] == "status":
                     q = {"closed": FILES + [TREE_OID[t] for t in TREES],
                          "expanded": [TREE_OID[t] for t in TREES],
-                         "dirs": [TREE_OID[t] for t in TREES]}[op[1]]
+                         "dirs": [TREE_OID[t] for t in TREES],
+                         "dir-T1": [TREE_OID["T1"]], "dir-T2": [TREE_OID["T2"]]}[op[1]]
                     shallow = op[1] != "expanded"
                     try:
                         st = status(xw.dest, {hi(o) for o in q}, index=xw.index, cache_odb=xw.src,
@@ -227,7 +258,10 @@ def run_history(hist):
                                 want |= set(LISTING[name_of(o)].values())
                         if got != want or ({h.value for h in st.exists} & {h.value for h in st.missing}):
                             viol.append(("indexed-status-not-a-partition", f"step {i}: {got} vs {want}"))
-                # invariant on the index after every operation
+                # invariant on the index after every library operation (an external deletion can only be
+                # noticed by the next status / transfer, which re-validates the index)
+                if op[0] == "del":
+                    continue
                 now = objects_only(store_snapshot(xw.dest.path))
                 listed = set()
                 for o in now:
@@ -263,14 +297,15 @@ def show(hist):
 
 def hist_case(case):
     hist = [tuple(o) for o in case["hist"]]
-    viol, state, steps = run_history(hist)
+    viol, state, steps = run_history(hist, case.get("init", "empty"))
+    state = state + case.get("init", "empty")[:1]
     res = {"n": 1, "trans": steps, "state": state, "outcome": repr(sorted({v[0] for v in viol})),
            "nontrivial": len(hist) >= 2, "viol": [], "vac": {}}
     seen = set()
     for sig, detail in viol:
         if sig not in seen:
             seen.add(sig)
-            res["viol"].append((sig, detail, {"part": "hist", "hist": case["hist"]}))
+            res["viol"].append((sig, detail, {"part": "hist", "hist": case["hist"], "init": case.get("init", "empty")}))
     res["vac"]["histories_with_fault"] = 1 if any(o[0] == "xfer" and o[2] for o in hist) else 0
     res["vac"]["histories_with_delete_then_status"] = 1 if any(
         a[0] == "del" and b[0] == "status" for a, b in zip(hist, hist[1:])) else 0
@@ -285,7 +320,7 @@ def run_case(case):
 
 def replay(case):
     if case["part"] == "hist":
-        viol, _s, _n = run_history([tuple(o) for o in case["hist"]])
+        viol, _s, _n = run_history([tuple(o) for o in case["hist"]], case.get("init", "empty"))
         print("history:", show([tuple(o) for o in case["hist"]]))
         return viol
     r = status_case({"kind": case["kind"], "content": case["content"], "fillers": case["fillers"]})
@@ -308,7 +343,9 @@ def run(ctx):
     ctx.assumptions = [
         "stores live on the local file system (a memory-backed store is assumed complete by design)",
         "the index invariant is history-based: an id counts as delivered once a transfer of this history "
-        "put it into the store; histories start from an empty destination and an empty index",
+        "put it into the store; it is evaluated after every library operation (not right after an external "
+        "deletion, which only the next indexed operation can notice); histories start from an empty destination "
+        "and index, and from a destination holding T1's directory object alone, already indexed by a status query",
         "canonical state = (objects in the destination, index contents, delivered set); temp files and "
         "timestamps are dropped (no operation of the alphabet observes them)",
     ]
@@ -319,28 +356,35 @@ def run(ctx):
     for kind in ("base", "local"):
         for content in subsets(universe):
             for fillers in (0, 8, 12):
-                if kind == "local" and fillers:
+                if kind == "local" and fillers not in (0, 8):
+                    continue
+                if kind == "local" and fillers and len(content) not in (0, len(universe)):
                     continue
                 cs.append({"part": "status", "kind": kind, "content": list(content), "fillers": fillers})
     ctx.run_cases("run_case", cs, chunksize=1, det=2)
     # (b) BFS
     nodedup = 3 if ctx.tier == "thorough" else 2
-    seen = set()
-    frontier = [[]]
-    total = 0
-    for d in range(1, depth + 1):
-        cases = [{"part": "hist", "hist": [list(o) for o in h] + [list(op)]} for h in frontier for op in ops]
-        nxt = []
-        for case, res in ctx.run_level("run_case", cases, det=8 if d == 2 else 0):
-            total += 1
-            st = res.get("state")
-            if st is None:
-                continue
-            if st not in seen or d < nodedup:
-                seen.add(st)
-                nxt.append([tuple(o) for o in case["hist"]])
-        frontier = sorted(nxt)
-        ctx.extra[f"bfs_level_{d}"] = {"executed": len(cases), "extended": len(frontier)}
-    ctx.sample({"history": show([tuple(o) for o in (frontier[0] if frontier else [])])})
-    ctx.extra["bfs_histories"] = total
-    ctx.extra["bfs_distinct_states"] = len(seen)
+    grand = 0
+    for init in ("empty", "orphan-dir-indexed"):
+        seen = set()
+        frontier = [[]]
+        total = 0
+        for d in range(1, depth + 1):
+            cases = [{"part": "hist", "hist": [list(o) for o in h] + [list(op)], "init": init}
+                     for h in frontier for op in ops]
+            nxt = []
+            for case, res in ctx.run_level("run_case", cases, det=8 if d == 2 else 0):
+                total += 1
+                st = res.get("state")
+                if st is None:
+                    continue
+                if st not in seen or d < nodedup:
+                    seen.add(st)
+                    nxt.append([tuple(o) for o in case["hist"]])
+            frontier = sorted(nxt)
+            ctx.extra[f"bfs_{init}_level_{d}"] = {"executed": len(cases), "extended": len(frontier)}
+        ctx.sample({"init": init, "history": show([tuple(o) for o in (frontier[0] if frontier else [])])})
+        ctx.extra[f"bfs_{init}_histories"] = total
+        ctx.extra[f"bfs_{init}_distinct_states"] = len(seen)
+        grand += total
+    ctx.extra["bfs_histories"] = grand
